@@ -56,6 +56,12 @@ def body():
                 bits = range(8) if not c.quick else [(off * 5 + e["idx"]) % 8]
                 for bit in bits:
                     scns.append(dict(s, fault="flip", dir=e["dir"], idx=e["idx"], off=off, bit=bit))
+            # the fields of the hello messages that carry a choice (message type, length, version): every other value an attacker would put there -- the neighbouring
+            # versions (03 01 .. 03 04, 01 01), type and length off by small amounts -- not only single-bit neighbours
+            if e["rtype"] == 22 and e["hs"] in (1, 2):
+                for off in (0, 3, 4, 5):
+                    for mask in ((1, 2, 3, 4, 5, 6, 7) if off in (4, 5) else (3, 5, 6)):
+                        scns.append(dict(s, fault="xor", dir=e["dir"], idx=e["idx"], off=off, bit=mask))
             if c.quick and n > 1:   # always the last payload byte too
                 scns.append(dict(s, fault="flip", dir=e["dir"], idx=e["idx"], off=n - 1, bit=0))
     for i, s in enumerate(scns):
